@@ -85,11 +85,15 @@ async fn run(mut sim: Sim, seed: u64, lossy: bool) -> Result<Value, String> {
         });
     }
 
-    let targets = [sim.addr(x), sim.addr(y), addr1, addr2];
-    let pins = [Some(sim.peer_id(x)), None, Some(sim.peer_id(y)), Some(sim::peer_id_of(&e_key))];
+    // the dialer's own address is a target too (self-dial, pinned to itself or not)
+    let targets = [sim.addr(x), sim.addr(y), addr1, addr2, sim.addr(d)];
+    let pins = [Some(sim.peer_id(x)), None, Some(sim.peer_id(y)), Some(sim::peer_id_of(&e_key)), Some(sim.peer_id(d))];
     let mut cases: Vec<(usize, usize)> = Vec::new();
-    for t in 0..4 {
-        for p in 0..4 {
+    for t in 0..5 {
+        for p in 0..5 {
+            if (t == 4) != (p == 4) && !(t == 4 && p == 1) {
+                continue; // self address only with the self pin or no pin; self pin only there
+            }
             cases.push((t, p));
         }
     }
